@@ -252,7 +252,35 @@ func c17MakeKinds(root string, perm os.FileMode, mt time.Time) []string {
 		}
 	}
 	os.Chown(root+"/reg", 1234, 4321)
+	// owners whose number names a different principal as a user and as a group (on this host e.g. 4 = sync / adm,
+	// 65534 = nobody / nogroup): the owner and group columns of a long name are looked up separately
+	if ids := c17CrossIDs(); len(ids) >= 2 {
+		os.Chown(root+"/dir", ids[0], ids[1])
+		os.Chown(root+"/fifo", ids[1], ids[0])
+	} else if len(ids) == 1 {
+		os.Chown(root+"/dir", ids[0], 0)
+		os.Chown(root+"/fifo", 0, ids[0])
+	}
 	return made
+}
+
+var c17CrossIDsOnce []int
+var c17CrossIDsDone bool
+
+// c17CrossIDs: up to two numbers that resolve both as a user id and as a group id, to different names.
+func c17CrossIDs() []int {
+	if c17CrossIDsDone {
+		return c17CrossIDsOnce
+	}
+	c17CrossIDsDone = true
+	for _, id := range []int{4, 5, 6, 65534, 42, 100, 12, 13} {
+		u, e1 := user.LookupId(strconv.Itoa(id))
+		g, e2 := user.LookupGroupId(strconv.Itoa(id))
+		if e1 == nil && e2 == nil && u.Username != g.Name && len(c17CrossIDsOnce) < 2 {
+			c17CrossIDsOnce = append(c17CrossIDsOnce, id)
+		}
+	}
+	return c17CrossIDsOnce
 }
 
 func c17Special(w uint32) os.FileMode {
